@@ -3,7 +3,8 @@
            callback-defined twin on every token sequence up to a bound (inside the path);
            with hist=1 another description (rejected at one of several stages, or accepted) is read first;
    mode 1: arbitrary bytes: only documented error codes, line number inside the text;
-   mode 2: character constant with a symbolic character. */
+   mode 2: character constant with a symbolic character;
+   mode 3: erroneous descriptions with symbolic white space, newlines and comments between the tokens. */
 #include "ph.h"
 static char text[4096];
 static struct snap1 { int rc, amb, nerr, err0; struct yaep_tree_node *root; } A, B;
@@ -79,7 +80,7 @@ void harness (void)
         {
           nt = g_nterm ();
           one = sx_choice ("one", 2);
-          for (len = 0; len <= maxlen; len++)
+          for (len = 0; len <= (nt > 0 ? maxlen : 0); len++)
             {
               for (i = 0; i < len; i++) idx[i] = 0;
               idx[0] = len ? 0 : 0;
@@ -114,6 +115,30 @@ void harness (void)
           m = yaep_error_message (g1);
           sx_assert (strncmp (m, "description syntax error on ln ", 31) == 0, "syntax error message names a line");
           v = 0; for (k = 31; m[k] >= '0' && m[k] <= '9'; k++) v = v * 10 + (m[k] - '0');
+          sx_assert ((v >= 1) & (v <= 1 + nl), "line number lies inside the text");
+        }
+      yaep_free_grammar (g1);
+    }
+  else if (mode == 3)
+    { /* erroneous descriptions with symbolic layout between the tokens: the reported line lies inside the text */
+      static const char *const tmpl[4] = { "TERM a@b@c@= ;", "s : a@b@) ;@", "TERM x@;@s : x@y@= ;", "s@:@a b@c@# 1 2 ;" };
+      static const char *const wsv[4] = { " ", "\n", "\n\n", " \n /* c */ " };
+      const char *t = tmpl[sx_choice ("template", 4)], *m; int k, n = 0, nl = 0, v; const char *w;
+      for (k = 0; t[k]; k++)
+        if (t[k] == '@') { for (w = wsv[sx_choice ("ws", 4)]; *w; w++) text[n++] = *w; }
+        else text[n++] = t[k];
+      text[n] = 0;
+      g1 = yaep_create_grammar (); sx_assume (g1 != NULL);
+      rc1 = yaep_parse_grammar (g1, 1, text);
+      sx_observe ("rc", rc1);
+      sx_assert (rc1 == YAEP_DESCRIPTION_SYNTAX_ERROR_CODE, "erroneous description yields the description syntax error code");
+      if (rc1 == YAEP_DESCRIPTION_SYNTAX_ERROR_CODE)
+        {
+          for (k = 0; k < n; k++) nl += (text[k] == '\n');
+          m = yaep_error_message (g1);
+          sx_assert (strncmp (m, "description syntax error on ln ", 31) == 0, "syntax error message names a line");
+          v = 0; for (k = 31; m[k] >= '0' && m[k] <= '9'; k++) v = v * 10 + (m[k] - '0');
+          sx_observe ("line", v); sx_observe ("lines", 1 + nl);
           sx_assert ((v >= 1) & (v <= 1 + nl), "line number lies inside the text");
         }
       yaep_free_grammar (g1);
